@@ -132,6 +132,11 @@ fn run(line: &str) -> String {
                 "f64" => 7f64.wire_size(),
                 "bytes" => Bytes::from(vec![1u8; n]).wire_size(),
                 "string" => "a".repeat(n).wire_size(),
+                // non-ASCII text: n characters of 2, 3 and 4 bytes each (the XDR length is in bytes)
+                "string_u2" => "\u{e9}".repeat(n).wire_size(),
+                "string_u3" => "\u{65e5}".repeat(n).wire_size(),
+                "string_u4" => "\u{1f600}".repeat(n).wire_size(),
+                "string_mix" => (0..n).map(|i| ["a", "\u{e9}", "\u{65e5}", "\u{1f600}"][i % 4]).collect::<String>().wire_size(),
                 "vec_u8" => vec![1u8; n].wire_size(),
                 "vec_u32" => vec![1u32; n].wire_size(),
                 "vec_u64" => vec![1u64; n].wire_size(),
